@@ -24,6 +24,8 @@ type FuncInfo struct {
 	Obj  *types.Func
 	Spec *FuncSpec
 	Lits []*ast.FuncLit // function literals inside, in source order
+	Lit    *ast.FuncLit // non-nil: this entry is the N-th function literal of Parent (key Parent.Key$N)
+	Parent *FuncInfo
 }
 
 type Prog struct {
@@ -39,6 +41,7 @@ type Prog struct {
 	SpecErrs []string
 	Orphans []string // contracts whose function does not exist
 	Trusted []string
+	LitFuncs map[string]*FuncInfo
 }
 
 func pkgShort(path string) string {
@@ -132,6 +135,15 @@ func LoadProg(root string, extraSpecDirs []string) (*Prog, error) {
 		pr.FuncKeys = append(pr.FuncKeys, k)
 	}
 	sort.Strings(pr.FuncKeys)
+	// function literals are addressable as Func$N (N-th literal of Func in source order) so that they can carry contracts
+	pr.LitFuncs = map[string]*FuncInfo{}
+	for _, k := range pr.FuncKeys {
+		fi := pr.Funcs[k]
+		for i, l := range fi.Lits {
+			lk := fmt.Sprintf("%s$%d", k, i+1)
+			pr.LitFuncs[lk] = &FuncInfo{Key: lk, Pkg: fi.Pkg, Decl: fi.Decl, Obj: fi.Obj, Lit: l, Parent: fi}
+		}
+	}
 
 	// contract files: every verif_contracts*.go in the module packages + extra spec dirs
 	var files [][2]string // path, pkg short
@@ -166,6 +178,13 @@ func LoadProg(root string, extraSpecDirs []string) (*Prog, error) {
 				}
 			}
 			fi, ok := pr.Funcs[key]
+			if !ok {
+				if lf, isLit := pr.LitFuncs[key]; isLit {
+					fi, ok = lf, true
+				} else if lf, isLit := pr.LitFuncs[f[1]+"."+key]; isLit && f[1] != "" {
+					fi, ok, key = lf, true, f[1]+"."+key
+				}
+			}
 			if !ok {
 				pr.Orphans = append(pr.Orphans, fmt.Sprintf("%s:%d: contract for unknown function %s", f[0], fs.Line, fs.Name))
 				continue
